@@ -454,8 +454,9 @@ def _transforms(ctx, ft, pr, config):
                 if hist_reports < 3:
                     try:
                         shared = call_impl(method, c['dir'], f, Q, (M, N), shift, forms=c.get('forms'))
-                        lowp = c['precision'] == 32 if method == 'mdft' else c['dtype'] in ('complex64', 'float32')
-                        same = shared.dtype == out.dtype and close(shared, out, 1e-5 if lowp else 1e-10)[0]
+                        lowp = c['precision'] == 32 if method == 'mdft' else (
+                            c['dtype'] in ('complex64', 'float32') or (c['precision'] == 32 and not c['dtype'].startswith(('complex', 'float'))))
+                        same = shared.dtype == out.dtype and close(shared, out, max(1e-5, tol_for(dict(c, precision=32))) if lowp else 1e-10)[0]
                     except Exception:
                         same = False
                     if not same:
@@ -850,8 +851,14 @@ def run_history(ops, ft, config, collect=None):
                 fail = fail or f'op {idx}: raised {type(ex).__name__}: {str(ex)[:120]}'
                 sizes.append((len(ft.mdft.Ein), len(ft.czt.components)))
                 continue
-            lowp = prec == 32 if op['method'] in ('mdft', 'mdft_bp') else op['dtype'] in ('complex64', 'float32')
-            ok, err = close(got, want, 1e-5 if lowp else 1e-10)
+            # which precision the engine works in: the matrix DFT in config.precision; the chirp-Z in that of the array it is
+            # given (integer / boolean arrays are cast to config.precision first)
+            lowp = prec == 32 if op['method'] in ('mdft', 'mdft_bp') else (
+                op['dtype'] in ('complex64', 'float32') or (prec == 32 and not op['dtype'].startswith(('complex', 'float'))))
+            # single precision: two builds of the same basis may round a shifted coordinate differently by one ulp (Python float vs
+            # NumPy scalar shift), which the chirp phases amplify: conditioning-aware tolerance (see tol_for)
+            tl = max(1e-5, tol_for(dict(op, precision=32))) if lowp else 1e-10
+            ok, err = close(got, want, tl)
             if got.dtype != want.dtype:
                 fail = fail or f'op {idx}: dtype {got.dtype} on the shared executor, {want.dtype} on a fresh one'
             elif not ok:
